@@ -1198,6 +1198,22 @@ func (p *pinner) Update(ctx context.Context, from, to cid.Cid, unpin bool) error
 		return err
 	}
 
+	// As when pinning recursively, the new recursive pin supersedes a direct
+	// pin of the same CID. It is removed after the recursive pin was added so
+	// that the CID is pinned at every point in between.
+	//
+	// TODO: remove this to support multiple pins per CID
+	toDirect, err := p.cidDIndex.HasAny(ctx, to.KeyString())
+	if err != nil {
+		return err
+	}
+	if toDirect {
+		_, err = p.removePinsForCid(ctx, to, ipfspinner.Direct)
+		if err != nil {
+			return err
+		}
+	}
+
 	if unpin {
 		_, err = p.removePinsForCid(ctx, from, ipfspinner.Recursive)
 		if err != nil {
